@@ -49,6 +49,12 @@ fn post_block(mb: &Metablock) {
     let _ = mb.verify(1, [k.public()]);
     let _ = mb.verify(u32::MAX, [k.public(), keys::get("rsa256a").public()]);
     let _ = mb.verify(0, std::iter::empty());
+    // more, exactly as many, and fewer good signers than the threshold; a key listed twice
+    let r = keys::get("rsa256a");
+    for t in [0u32, 1, 2, 3] {
+        let _ = mb.verify(t, [k.public(), r.public()]);
+        let _ = mb.verify(t, [r.public(), k.public(), k.public()]);
+    }
     let _ = mb.metadata.to_bytes();
     let _ = mb.metadata.to_signable_bytes();
     for s in &mb.signatures {
